@@ -21,6 +21,7 @@ inline Plan Gen(uint64_t seed)
    p.push_back("step 2");
    static const char * parents[] = {"L", "L/a", "M"};
    static const char * explicitKids[] = {"x", "y", "z", "w"};
+   auto EK = [&](Rng & r) -> std::string {if ((gen::g_wideNames)&&(r.pct(60))) return "k" + I(r.below(12)); return explicitKids[r.below(4)];};   // wide mode: indices of up to ~20 entries
    const int nops = 10 + (int) wl.below(wl.oneIn(4) ? 80 : 35);
    int sinceQuiesce = 0;
    for (int op=0; op<nops; op++)
@@ -36,9 +37,9 @@ inline Plan Gen(uint64_t seed)
          // one BATCH: an index change followed by a request for the snapshot of nodes this client is subscribed to (the snapshot must not overtake the
          // instructions that the change before it produced); only subscribed patterns are requested, so every replica the client builds keeps being updated
          auto it = g.intent[c].begin(); std::advance(it, wl.below((uint32_t) g.intent[c].size()));
-         std::string before = "-"; const uint32_t b = wl.below(10); if (b < 3) before = explicitKids[wl.below(4)]; else if (b < 6) before = "I" + I(wl.below(6));
+         std::string before = "-"; const uint32_t b = wl.below(10); if (b < 3) before = EK(wl); else if (b < 6) before = "I" + I(wl.below(6));
          p.push_back("bsend " + I(c) + " insord " + Esc(par) + " " + before + " " + U(g.val++));
-         if (wl.oneIn(3)) p.push_back("bsend " + I(c) + " reorder " + Esc(par + "/" + (wl.oneIn(2) ? std::string(explicitKids[wl.below(4)]) : ("I" + I(wl.below(6))))) + " -");
+         if (wl.oneIn(3)) p.push_back("bsend " + I(c) + " reorder " + Esc(par + "/" + (wl.oneIn(2) ? std::string(EK(wl)) : ("I" + I(wl.below(6))))) + " -");
          p.push_back("bsend " + I(c) + " getdata " + Esc(*it));
          p.push_back("bflush " + I(c));
       }
@@ -49,27 +50,27 @@ inline Plan Gen(uint64_t seed)
          const std::string pp = wl.oneIn(8) ? "*" : par;
          std::string s = "insord " + Esc(pp);
          const int n = wl.oneIn(4) ? 2 : 1;
-         for (int i=0; i<n; i++) {std::string before = "-"; const uint32_t b = wl.below(10); if (b < 3) before = explicitKids[wl.below(4)]; else if (b < 6) before = "I" + I(wl.below(6)); s += " " + before + " " + U(g.val++);}
+         for (int i=0; i<n; i++) {std::string before = "-"; const uint32_t b = wl.below(10); if (b < 3) before = EK(wl); else if (b < 6) before = "I" + I(wl.below(6)); s += " " + before + " " + U(g.val++);}
          p.push_back(sendPfx + s);
          if ((pp != "*")&&(wl.oneIn(5))) p.push_back(sendPfx + "setdata s " + par + "=" + U(g.val++) + ":-");
       }
-      else if (k < 40) p.push_back(sendPfx + "setdata i " + par + "/" + explicitKids[wl.below(4)] + "=" + U(g.val++) + ":" + I(wl.below(4)));   // add-to-index with an explicit name
-      else if (k < 46) p.push_back(sendPfx + "setdata - " + par + "/" + (wl.oneIn(2) ? explicitKids[wl.below(4)] : ("I" + I(wl.below(6)))) + "=" + U(g.val++) + ":1");   // plain set of an (un)indexed child
+      else if (k < 40) p.push_back(sendPfx + "setdata i " + par + "/" + EK(wl) + "=" + U(g.val++) + ":" + I(wl.below(4)));   // add-to-index with an explicit name
+      else if (k < 46) p.push_back(sendPfx + "setdata - " + par + "/" + (wl.oneIn(2) ? EK(wl) : ("I" + I(wl.below(6)))) + "=" + U(g.val++) + ":1");   // plain set of an (un)indexed child
       else if (k < 58)
       {
          // reorder: move a child (or a wildcard selection) before a sibling, to the end, before itself, or out of the index
-         const std::string child = wl.oneIn(5) ? std::string("*") : (wl.oneIn(2) ? std::string(explicitKids[wl.below(4)]) : ("I" + I(wl.below(6))));
+         const std::string child = wl.oneIn(5) ? std::string("*") : (wl.oneIn(2) ? std::string(EK(wl)) : ("I" + I(wl.below(6))));
          std::string to; const uint32_t b = wl.below(10);
-         if (b < 3) to = "-"; else if (b < 5) to = "!Rmv"; else if (b < 7) to = explicitKids[wl.below(4)]; else if (b < 9) to = "I" + I(wl.below(6)); else to = child;
+         if (b < 3) to = "-"; else if (b < 5) to = "!Rmv"; else if (b < 7) to = EK(wl); else if (b < 9) to = "I" + I(wl.below(6)); else to = child;
          p.push_back(sendPfx + "reorder " + Esc(par + "/" + child) + " " + Esc(to));
       }
-      else if ((k < 61)&&(wl.oneIn(4)))
+      else if ((k < 61)&&(wl.oneIn(2)))
       {
          // server-side clone or save+restore of an indexed parent into a sibling location, with or without the add-to-index flag
          static const char * dsts[] = {"L2", "M/copy", "L/a/c"};
          p.push_back(std::string(wl.oneIn(2) ? "srvclone " : "srvrestore ") + I(c) + " " + Esc(par) + " " + Esc(dsts[wl.below(3)]) + " " + (wl.oneIn(2) ? "i" : "-"));
       }
-      else if (k < 66) p.push_back(sendPfx + "rmdata " + std::string(((quiet)&&(wl.oneIn(2))) ? "1 " : "0 ") + Esc(par + "/" + (wl.oneIn(4) ? std::string("*") : (wl.oneIn(2) ? std::string(explicitKids[wl.below(4)]) : ("I" + I(wl.below(6)))))));   // remove children
+      else if (k < 66) p.push_back(sendPfx + "rmdata " + std::string(((quiet)&&(wl.oneIn(2))) ? "1 " : "0 ") + Esc(par + "/" + (wl.oneIn(4) ? std::string("*") : (wl.oneIn(2) ? std::string(EK(wl)) : ("I" + I(wl.below(6)))))));   // remove children
       else if (k < 69) p.push_back(sendPfx + "rmdata 0 " + Esc(par));                                                      // remove the indexed parent itself
       else if (k < 82)
       {
